@@ -244,7 +244,7 @@ def _loop_body_effects(ctx: Ctx, f: Func, loop: ast.For):
     return out
 
 
-@rule("ITER-INV", ["C01", "C08", "C20", "C07"], floor=25, section="3.5")
+@rule("ITER-INV", ["C01", "C08", "C20", "C07", "C05", "C12"], floor=25, section="3.5")
 def iter_inv(ctx: Ctx) -> List[Ob]:
     """no loop iterates a live child list / clone list / dict while its body (transitively) changes that container in place; removal loops iterate a copy or a deferred list"""
     obs: List[Ob] = []
